@@ -276,17 +276,22 @@ def oracle(ck, tier, deep):
     # ApproxGaussian
     tols = [4.8e-3, 1e-3, 5e-2, 1e-5] if not deep else [5e-2, 3.7e-2, 1.4e-2, 4.8e-3, 1e-3, 0.86e-3, 1e-4, 0.95e-5, 1e-5]
     tols += [float(t) for t in np.exp(rng.uniform(np.log(1e-5), np.log(5e-2), size=8 if not deep else 40))]      # any tolerance, not the round ones
+    # a log-spaced lattice over the whole range with a seed-dependent phase: the node-placement estimate goes wrong in narrow bands
+    # of tol (F34: 1.37e-3..1.43e-3, 5.6e-3..5.7e-3, 1.85e-2..2.07e-2 before the fix), which a few random draws rarely hit
+    nl = 250 if not deep else 2500
+    tols += [float(t) for t in np.exp(np.log(1e-5) + (np.arange(nl) + rng.uniform()) / nl * (np.log(5e-2) - np.log(1e-5)))]
     for tol in tols:
         ck.count(("S.gauss", tol), suite="S.approx-gaussian")
         ag = quiet(ApproxGaussian, tol)
-        r = np.linspace(0, 8, 80001)
+        r = np.linspace(0, 1.05 * max(rg[1] for rg in ag.ranges), 40001)
         pp = quiet(PiecewisePolynomial, r, ag.ranges)
         dev = np.abs(pp.func - np.exp(-r * r / 2)).max()
         if dev > 1.01 * tol:
             ck.violation(dict(site="ApproxGaussian", clause="tolerance"), dict(tol=tol, deviation=float(dev)), f"ApproxGaussian({tol}) deviates by {dev:.4g} > 1.01·tol")
         sc = ag.scaled(2.0, 3.0, 1.5)
-        pp2 = quiet(PiecewisePolynomial, r, sc)
-        dev2 = np.abs(pp2.func - 2.0 * np.exp(-(r - 3.0) ** 2 / (2 * 1.5 ** 2))).max()
+        r2 = np.linspace(0, 3.0 + 1.5 * r[-1], 40001)
+        pp2 = quiet(PiecewisePolynomial, r2, sc)
+        dev2 = np.abs(pp2.func - 2.0 * np.exp(-(r2 - 3.0) ** 2 / (2 * 1.5 ** 2))).max()
         if dev2 > 2.0 * 1.01 * tol:
             ck.violation(dict(site="ApproxGaussian", clause="scaled"), dict(tol=tol, deviation=float(dev2)), f"scaled ApproxGaussian deviates by {dev2:.4g}")
 
